@@ -1,4 +1,5 @@
 import AlgopyVerif.Proofs.NthDeriv
+import AlgopyVerif.Proofs.NthPiecewise
 /-!
 # C16 — closed-form n-th derivatives are the true derivatives
 
@@ -16,7 +17,9 @@ reciprocal, sin, cos, sinh, cosh, arctanh`; `gammaln/psi/polygamma` and `hyperu`
 the first-order relations of their SciPy leaves (Mathlib has no polygamma / Tricomi U).
 Not yet proved (modelled in exact Gaussian-rational arithmetic and tied by correspondence +
 contour-integral oracle): `arctan, arcsin, arccos, arcsinh, arccosh` (Legendre / complex
-closed forms), `erf, erfi` (finite sums), the piecewise functions away from their jumps.
+closed forms), `erf, erfi` (finite sums).  The piecewise functions away from their jumps / kinks:
+`step_nth` (every function that is constant near `x`: `rint, fix, floor, ceil, trunc, sign`), with the instances
+`floor_nth`, `ceil_nth`, `sign_nth`, and `absolute_nth` (`|x|`: order 1 is `sign x`, higher orders 0).
 -/
 open AV Set
 namespace AV.C16
@@ -138,5 +141,32 @@ theorem hyperu_nth (a : ℝ) (u : ℕ → ℝ → ℝ) (S : Set ℝ) (hS : IsOpe
 example : dLog (0:ℚ) 2 3 = 1/4 := by decide +kernel
 example : dReciprocal (2:ℚ) 2 = 1/4 := by decide +kernel
 example : dSin (3/5 : ℚ) (4/5) 6 = -3/5 := by decide +kernel
+
+/-! ## piecewise-constant and piecewise-linear functions away from jumps and kinks -/
+
+/-- every function constant in a neighbourhood of `x` (`rint, fix, floor, ceil, trunc, sign` away from their jumps):
+order 0 is the value, all higher orders are 0 -/
+theorem step_nth (f : ℝ → ℝ) (x : ℝ) (h : f =ᶠ[nhds x] fun _ => f x) (n : ℕ) :
+    iteratedDeriv n f x = dStep (f x) n := iteratedDeriv_of_locally_const f x h n
+
+theorem floor_nth (x : ℝ) (hx : ∀ k : ℤ, x ≠ k) (n : ℕ) :
+    iteratedDeriv n (fun y : ℝ => (⌊y⌋ : ℝ)) x = dStep (⌊x⌋ : ℝ) n :=
+  iteratedDeriv_of_locally_const _ x (floor_locally_const x hx) n
+
+theorem ceil_nth (x : ℝ) (hx : ∀ k : ℤ, x ≠ k) (n : ℕ) :
+    iteratedDeriv n (fun y : ℝ => (⌈y⌉ : ℝ)) x = dStep (⌈x⌉ : ℝ) n :=
+  iteratedDeriv_of_locally_const _ x (ceil_locally_const x hx) n
+
+theorem sign_nth (x : ℝ) (hx : x ≠ 0) (n : ℕ) :
+    iteratedDeriv n (fun y : ℝ => (SignType.sign y : ℝ)) x = dStep (SignType.sign x : ℝ) n :=
+  iteratedDeriv_of_locally_const _ x (sign_locally_const x hx) n
+
+theorem absolute_nth (x : ℝ) (hx : x ≠ 0) (n : ℕ) :
+    iteratedDeriv n (fun y : ℝ => |y|) x = dAbsolute |x| (SignType.sign x : ℝ) n := by
+  rw [iteratedDeriv_of_locally_affine _ _ 0 x (abs_locally_affine x hx) n]
+  match n with
+  | 0 => rfl
+  | 1 => rfl
+  | n + 2 => rfl
 
 end AV.C16
